@@ -228,6 +228,8 @@ void run_offload_sequences(verif::Report& rep, verif::Args const& args)
         }
         World& w = *wp;
         int ntracks = int(r.integer(2, 6));
+        try
+        {
         for (int t = 0; t < ntracks; ++t)
         {
             TrackSlotId slot{size_type(r.integer(0, std::int64_t(w.num_slots) - 1))};
@@ -446,6 +448,19 @@ void run_offload_sequences(verif::Report& rep, verif::Args const& args)
                     r.unit3(nd);
                     geo.set_dir(make_unit_vector(Real3{nd[0], nd[1], nd[2]}));
                 }
+            }
+        }
+        }
+        catch (DebugError const& e)
+        {
+            // debug/asan replica: a bounds assertion is a memory-safety event, any other library
+            // assertion only ends this scripted case (policy of DESIGN 2.1)
+            if (verif::is_bounds_assertion(e))
+                rep.violation(verif::bounds_key("C20", e), e.what(), json{{"seed", args.seed}, {"sequence_case", ci}});
+            else
+            {
+                rep.inconclusive("debug-assert: " + verif::describe(e));
+                rep.observe("assert:" + verif::describe(e));
             }
         }
     }
